@@ -293,14 +293,16 @@ pub struct TailOutcome { pub ctx: ExecuteContext, pub calls: VmIndex }
 
 // ---- GetOffset arm
 pub struct DataView { pub fields: Vec<Value> }
-pub enum PoppedRepr { Data(DataView), Other }
+pub enum PoppedRepr { Data(DataView), Tag(VmTag), Other }
+pub uninterp spec fn is_tag(v: Value) -> bool;              // a field-less variant (ValueRepr::Tag)
 pub uninterp spec fn is_data(v: Value) -> bool;             // any data value (record / variant with fields)
 pub uninterp spec fn fields_of(v: Value) -> Seq<Value>;
 impl Value {
     // `.get_repr()` on a popped value, looked at only as "data with these fields" or "something else"
     #[verifier::external_body]
     pub fn get_repr(&self) -> (r: PoppedRepr)
-        ensures r is Data == is_data(*self), r is Data ==> r->Data_0.fields@ == fields_of(*self)
+        ensures r is Data == is_data(*self), r is Data ==> r->Data_0.fields@ == fields_of(*self),
+                r is Tag == is_tag(*self), !(is_data(*self) && is_tag(*self)),
     { unimplemented!() }
 }
 impl StackFrame {
